@@ -59,8 +59,11 @@ def main(prop, path):
     except subprocess.TimeoutExpired:
         aout = "<timeout>"
     mcase = case
-    if " in=- " in case and "endless" in shape:
-        mcase = case.replace(" in=- ", " in=%s " % ",".join(map(str, range(4000)))).replace("fuel=0", "fuel=1000000")
+    if " in=- " in case and ("endless" in shape or "bigrange" in shape):
+        # the model runs on a finite prefix that contains the match (K10)
+        mcase = case.replace(" in=- ", " in=%s " % ",".join(map(str, range(16000)))).replace("fuel=0", "fuel=1000000")
+        mcase = mcase.replace("shape=bigrange_", "shape=endless_").replace("known=1", "known=0")
+        mcase = " ".join(t for t in mcase.split() if not t.startswith("big="))
     _, mout, _ = k3.run_bin(DRIVER, ["k3"], [mcase])
     mout = mout[0] if mout else "<no output>"
     print("case : %s" % case[:2000])
@@ -69,5 +72,7 @@ def main(prop, path):
     af, mf = k3.fields(aout), k3.fields(mout)
     same = af.get("res") == mf.get("res") and af.get("params", "").split("|")[0] == mf.get("params") \
         and k3.multiset(af.get("clog", "-")) == k3.multiset(mf.get("clog", "-"))
+    if "bigrange" in shape or "endless" in shape:
+        print("first-stage evaluations / source elements consumed: ncalls=%s endless=%s" % (af.get("ncalls"), af.get("endless")))
     print("verdict: %s" % ("value/params/construction log agree now" if same else "still differs"))
     return 0 if same else 1
